@@ -176,14 +176,14 @@ def process_suite(rep, mod, suite, model_ok, max_shrink=3):
             cc = Case("s", ops, c.meta)
             if model_ok and any("HANG" in l for l in run_model(suite.model_engine, [cc]).get("s", [])):
                 return False          # the candidate would block the real code forever; not a useful reduction
-            i2 = run_impl(suite, [cc], 15).get("s", ["<no output>"])
+            i2 = run_impl(suite, [cc], 5).get("s", ["<no output>"])
             s2 = run_model(suite.spec_engine, [cc]).get("s") if (model_ok and suite.spec_engine) else None
             r = suite.monitor(cc, i2, s2)
             return bool(r) and r[1] == sig
 
         ops = vlib.shrink_ops(c.ops, still, keep_prefix=c.meta.get("keep_prefix", 0)) if len(c.ops) > 1 else c.ops
         cc = Case(c.cid + "-min", ops, c.meta)
-        i2 = run_impl(suite, [cc], 15).get(cc.cid, [])
+        i2 = run_impl(suite, [cc], 5).get(cc.cid, [])
         s2 = run_model(suite.spec_engine, [cc]).get(cc.cid) if (model_ok and suite.spec_engine) else None
         r = suite.monitor(cc, i2, s2) or v
         path = rep.replay_path(suite.name)
@@ -206,12 +206,12 @@ def process_suite(rep, mod, suite, model_ok, max_shrink=3):
                 m2 = run_model(suite.model_engine, [cc]).get("s")
                 if m2 and any("HANG" in l for l in m2):
                     return False
-                a2, b2 = suite.canon(run_impl(suite, [cc], 15).get("s") or [], m2 or [])
+                a2, b2 = suite.canon(run_impl(suite, [cc], 5).get("s") or [], m2 or [])
                 return a2 != b2
 
             ops = vlib.shrink_ops(c.ops, still, keep_prefix=c.meta.get("keep_prefix", 0)) if len(c.ops) > 1 else c.ops
             cc = Case(c.cid + "-min", ops, c.meta)
-            i2 = run_impl(suite, [cc], 15).get(cc.cid, [])
+            i2 = run_impl(suite, [cc], 5).get(cc.cid, [])
             m2 = run_model(suite.model_engine, [cc]).get(cc.cid, [])
             d = vlib.first_diff(i2, m2)
             shown.append((cc, i2, m2, d))
